@@ -9,6 +9,7 @@ package main
 // vh c02-child : executes cases from stdin; protocol on stdout, one line each:
 //                  "> id"          the case is about to run (flushed before it starts)
 //                  "= id {json}"   its result
+//                  "@ id text"     progress inside a case (graphs: "root op" about to run)
 //                  "! id text"     watchdog: the case exceeded its CPU/wall limit (exit 86)
 //                  "# id text"     machinery problem (exit 3)
 
@@ -24,6 +25,7 @@ import (
 	"regexp"
 	"runtime"
 	"runtime/debug"
+	"runtime/pprof"
 	"strconv"
 	"strings"
 	"sync"
@@ -115,6 +117,11 @@ func c02Child(args []string) error {
 	if *stackMB > 0 {
 		debug.SetMaxStack(*stackMB << 20)
 	}
+	if pf := os.Getenv("C02_PROF"); pf != "" {
+		f, _ := os.Create(pf)
+		pprof.StartCPUProfile(f)
+		defer pprof.StopCPUProfile()
+	}
 	if err := c02Init(); err != nil {
 		return err
 	}
@@ -164,6 +171,12 @@ func c02Child(args []string) error {
 		curStartCPU.Store(cpuMillis())
 		curStartWall.Store(time.Now().UnixMilli())
 		curID.Store(h.ID)
+		c02Progress = func(at string) {
+			mu.Lock()
+			fmt.Fprintf(w, "@ %d %s\n", h.ID, at)
+			w.Flush()
+			mu.Unlock()
+		}
 		res, err := c02Exec(*kind, raw)
 		curID.Store(-1)
 		mu.Lock()
@@ -188,6 +201,7 @@ func c02Child(args []string) error {
 type c02Abnormal struct {
 	ID      int64           `json:"id"`
 	What    string          `json:"what"` // crash | hang | panic | bad | mismatch
+	At      string          `json:"at,omitempty"` // progress marker of the case when it died
 	Exit    int             `json:"exit,omitempty"`
 	Fatal   string          `json:"fatal,omitempty"`  // first "fatal error:" / "panic:" line of the child's stderr
 	Frames  []string        `json:"frames,omitempty"` // first go.starlark.net functions of the dying stack
@@ -311,7 +325,7 @@ func (s *c02Sup) runBatch(lines [][]byte) error {
 		br := bufio.NewReaderSize(stdout, 1<<20)
 		inflight := int64(-1)
 		done := 0 // number of cases of `lines` finished (result, hang or crash)
-		var hang, mach string
+		var hang, mach, at string
 		for {
 			line, err := br.ReadBytes('\n')
 			if len(line) > 2 {
@@ -325,6 +339,9 @@ func (s *c02Sup) runBatch(lines [][]byte) error {
 				switch line[0] {
 				case '>':
 					inflight = id
+					at = ""
+				case '@':
+					at = string(payload)
 				case '=':
 					inflight = -1
 					done++
@@ -367,7 +384,7 @@ func (s *c02Sup) runBatch(lines [][]byte) error {
 			return nil
 		}
 		// the case in flight killed the child (or was killed by the watchdog)
-		a := &c02Abnormal{ID: inflight, Exit: exit, Case: json.RawMessage(bytes.TrimSpace(byID[inflight]))}
+		a := &c02Abnormal{ID: inflight, Exit: exit, At: at, Case: json.RawMessage(bytes.TrimSpace(byID[inflight]))}
 		if hang != "" && exit == 86 {
 			a.What, a.Detail = "hang", hang
 		} else {
